@@ -30,7 +30,9 @@ def gen_sandwich(tier, seed, miri=False):
     if miri:
         return ["id=%d threads=%d waves=%d len=%d seed=%d" % (i, rng.choice([2, 3]), 2, rng.choice([5, 15]), rng.randrange(1 << 30)) for i in range(3 if tier == "quick" else 12)]
     n = 8 if tier == "quick" else 100
-    return ["id=%d threads=%d waves=%d len=%d seed=%d" % (i, rng.choice([8, 32, 64]), rng.choice([2, 4]), rng.choice([10, 60, 200]), rng.randrange(1 << 30)) for i in range(n)]
+    # (act: the benchmark runner was used earlier in the process - test_benches / list_benches over one registered benchmark)
+    return ["id=%d threads=%d waves=%d len=%d seed=%d%s" % (i, rng.choice([8, 32, 64]), rng.choice([2, 4]), rng.choice([10, 60, 200]), rng.randrange(1 << 30),
+                                                            " act=%d" % (1 + i % 3) if i % 2 == 1 else "") for i in range(n)]
 
 
 def judge(prop, shards, out, fn, engine, binname, agg):
